@@ -22,6 +22,7 @@ from . import sym
 from .source import FuncInfo, AnalysisError
 from .sym import NONE, canon, literals
 
+ALIASED_CONTAINER_FIELDS = {"_childrenv", "children", "_lazy_children", "_strat_children", "perm"}
 PURE_MODULES = {"np", "numpy", "pd", "pandas", "math", "re", "random", "abc", "sklearn", "ffn", "plt", "pyprind", "codecs", "os"}
 NODE_PARAM_NAMES = {"target", "strategy", "random_strategy", "parent", "root", "node", "child", "c", "sec", "s", "paper"}
 NODE_FIELDS = {"parent", "root", "_paper", "strategy"}
@@ -854,7 +855,11 @@ class Evaluator(object):
 
     def lookup(self, name, st, frame):
         if name in st.locals:
-            return st.locals[name]
+            v_ = st.locals[name]
+            if isinstance(v_, tuple) and len(v_) == 4 and v_[0] == "fld" and v_[2] in ALIASED_CONTAINER_FIELDS:
+                # a local bound to one of the tree's own containers is an alias of that (mutable, never re-assigned) object: it shows what the container holds NOW
+                return self.read_field(v_[1], v_[2], st, frame, None)
+            return v_
         mod = frame.fn.module
         fi = self.prog.functions.get((mod, name))
         if fi is not None:
@@ -915,10 +920,40 @@ class Evaluator(object):
                 return _ite(obj[1], a if a is not None else ("attr", obj[2], name), b if b is not None else ("attr", obj[3], name))
         return None
 
+    def _result_field_index(self, obj, name):
+        """index of field `name` when obj is the result of a call whose callee(s) return a namedtuple built in their body, else None"""
+        if not (isinstance(obj, tuple) and len(obj) == 2 and obj[0] == "res"):
+            return None
+        ev = None
+        for e_ in reversed(self.summary.events):
+            if e_.kind == "call" and e_.result == obj:
+                ev = e_
+                break
+        if ev is None or not ev.callee:
+            return None
+        idx = set()
+        for c_ in ev.callee:
+            node_ = getattr(c_, "node", None)
+            if node_ is None:
+                return None
+            found = False
+            for n_ in ast.walk(node_):
+                if isinstance(n_, ast.Return) and isinstance(n_.value, ast.Call) and isinstance(n_.value.func, ast.Name):
+                    fields = self._namedtuple_fields(n_.value.func.id, Frame(c_, c_.cls, (c_.qual,)))
+                    if fields is not None and name in fields:
+                        idx.add(fields.index(name))
+                        found = True
+            if not found:
+                return None
+        return idx.pop() if len(idx) == 1 else None
+
     def read_attr(self, obj, name, st, frame, node):
         ntv = self._namedtuple_attr(obj, name)
         if ntv is not None:
             return ntv
+        k_ = self._result_field_index(obj, name)
+        if k_ is not None:
+            return _component(obj, k_, None)  # the field of a named tuple returned by the callee is that component of its result
         t = obj[0]
         if t == "mod":
             dotted = "%s.%s" % (obj[1], name)
@@ -1427,6 +1462,10 @@ class Evaluator(object):
                 overrides = [sc for sc in self.prog.subclasses(frame.host) if sc != frame.host and name in self.prog.classes[sc].methods]
                 if fi is not None and not fi.is_property:
                     if not overrides:
+                        return self.call_function(fi, recv, frame.host, args, kwargs, st, frame, node, recv=recv)
+                    if name.startswith("_") and not name.startswith("__") and fi.qual not in frame.chain and fi.qual not in self.no_inline and name not in self.no_inline:
+                        # a private hook of a template method: the host is the class the function is analysed FOR (each concrete class is analysed on its own),
+                        # so the hook is that class's own implementation
                         return self.call_function(fi, recv, frame.host, args, kwargs, st, frame, node, recv=recv)
                     cands = [fi] + [self.prog.classes[sc].methods[name] for sc in overrides]
                     return self.call_opaque(recv, name, cands, args, kwargs, st, frame, node)
